@@ -57,7 +57,7 @@ def place_expr(F, B, pl, depth):
                 return root[4][pl["p"][0]["f"]]
             return ("tfield", root, pl["p"][0]["f"])
         # `*(&place)` is the place
-        while names and names[0] == "*" and root[0] == "addr":
+        while names and names[0] == "*" and root[0] == "addr" and (len(root) < 4 or root[3] == "raw"):
             root = root[1]
             names = names[1:]
         if not names:
